@@ -127,3 +127,62 @@ fn histories() -> Vec<Vec<u8>> {
         }
     }
 }
+
+// ---- generated rule sets: every subset of <= 4 rules of a pool of 14, in pool order and reversed ------------------------
+// (the ORDER of the rules decides in which round a fact's expiry is improved and whether its consumers see the
+//  improvement: e.g.  f => h ; wa:p => f ; wb:p => m ; m => f   improves f after h was derived from the short-lived f)
+fn rule_pool() -> Vec<(Vec<&'static str>, &'static str)> {
+    let mut v: Vec<(Vec<&'static str>, &'static str)> = Vec::new();
+    for s in ["wa:p", "wb:p"] { for t in ["wo:f", "wo:m", "wo:h"] { v.push((vec![s], t)); } }
+    for (s, t) in [("wo:f", "wo:m"), ("wo:f", "wo:h"), ("wo:m", "wo:f"), ("wo:m", "wo:h")] { v.push((vec![s], t)); }
+    v.push((vec!["wa:p", "wb:p"], "wo:f"));
+    v.push((vec!["wa:p", "wb:p"], "wo:h"));
+    v.push((vec!["wo:f", "wo:m"], "wo:h"));
+    v.push((vec!["wa:p", "wo:m"], "wo:h"));
+    v
+}
+fn n3_of(rules: &[(Vec<&'static str>, &'static str)]) -> String {
+    let mut s = String::from("@prefix wa: <http://wa/> .\n@prefix wb: <http://wb/> .\n@prefix wo: <http://out/> .\n");
+    for (prem, head) in rules {
+        let body: Vec<String> = prem.iter().map(|p| format!("?s {} ?o", p)).collect();
+        s.push_str(&format!("{{ {} }} => {{ ?s {} ?o }}\n", body.join(" . "), head));
+    }
+    s
+}
+fn short_histories(ticks: u64) -> Vec<Vec<u8>> {
+    let mut v: Vec<Vec<u8>> = vec![vec![]];
+    for _ in 0..ticks { let mut n = Vec::new(); for h in &v { for x in 0..4u8 { let mut g = h.clone(); g.push(x); n.push(g); } } v = n; }
+    v
+}
+
+#[test] fn w__incremental_sds_plus__generated_rule_sets_equal_from_scratch() {
+    let pool = rule_pool();
+    let thorough = std::env::var("VERIF_TIER").map_or(false, |v| v == "thorough");
+    let hist_ticks = if thorough { 4 } else { 3 };
+    let hs = short_histories(hist_ticks);
+    let n = pool.len();
+    let mut programs: Vec<Vec<usize>> = Vec::new();
+    for a in 0..n { programs.push(vec![a]); for b in a + 1..n { programs.push(vec![a, b]); for c in b + 1..n { programs.push(vec![a, b, c]); for d in c + 1..n { programs.push(vec![a, b, c, d]); } } } }
+    let mut evaluations = 0u64;
+    for idx in &programs { for reversed in [false, true] {
+        let mut rules: Vec<_> = idx.iter().map(|i| pool[*i].clone()).collect();
+        if reversed { if rules.len() == 1 { continue; } rules.reverse(); }
+        let text = n3_of(&rules);
+        let (dict, parsed) = setup(&text);
+        // sets of 4 rules: histories of 2 ticks in the quick tier (16 histories), the full length in the thorough tier
+        let short = !thorough && idx.len() == 4;
+        for h in hs.iter().filter(|h| !short || h[2..].iter().all(|x| *x == 0)) {
+            let mut state: SdsWithExpiry = HashMap::new();
+            for now in 0..hist_ticks + ALPHA_B {
+                let sds = sds_at(h, now, u64::MAX);
+                state = incremental_sds_plus(&parsed, &sds, &state, &dict, now);
+                let comps = all_component_iris(&sds);
+                let incr = decode_view(&sds_with_expiry_to_external(&state, &dict, &comps), &dict);
+                let naive = decode_view(&naive_sds_plus(&parsed, &sds, &dict, now), &dict);
+                evaluations += 1;
+                assert!(incr == naive, "rules (in this order) {:?}: history {:?} (bit0 = arrival in window A width {}, bit1 = window B width {}), evaluation time {}: incremental materialisation {:?} differs from from-scratch reasoning {:?}", rules, h, ALPHA_A, ALPHA_B, now, incr, naive);
+            }
+        }
+    }}
+    assert!(evaluations > 100_000);
+}
